@@ -6,6 +6,7 @@ import (
 	"fmt"
 	"math"
 	"math/rand"
+	"runtime"
 	"sort"
 	"sync"
 	"sync/atomic"
@@ -32,10 +33,18 @@ type tb struct {
 	group int
 	msg   []byte
 	fin   atomic.Int32
+	slow  bool // the completion callback takes a while (it yields the processor many times; it never blocks)
 }
 
 func (b *tb) Message() []byte { return b.msg }
-func (b *tb) Finished()       { b.fin.Add(1) }
+func (b *tb) Finished() {
+	if b.slow {
+		for i := 0; i < 300; i++ {
+			runtime.Gosched()
+		}
+	}
+	b.fin.Add(1)
+}
 func (b *tb) Invalidates(o memberlist.Broadcast) bool {
 	if b.kind != kPlain {
 		return false
@@ -454,6 +463,7 @@ func TestC10(t *testing.T) {
 	if run.Thorough() && !run.Replaying() {
 		c10Concurrent(t, run)
 	}
+	c10ConcurrentNamed(run)
 	run.Complete()
 	if run.Violations() > 0 {
 		t.Errorf("%d violation(s)", run.Violations())
@@ -595,5 +605,89 @@ func c10Concurrent(t *testing.T, run *Run) {
 			run.Note("porcupine timeout on round %d (inconclusive for that round)", round)
 			run.Count("porcupine_timeouts", 1)
 		}
+	}
+}
+
+// c10ConcurrentNamed: several goroutines queue broadcasts about the same few subjects at once, with completion
+// callbacks that take a while. Whatever the interleaving, once the producers are done the queue holds exactly
+// one broadcast per subject (the others were superseded), every superseded one was completed exactly once, the
+// survivors not at all, and draining hands out survivors only.
+func c10ConcurrentNamed(run *Run) {
+	rounds := run.Pick(60, 4000)
+	for round := 0; round < rounds; round++ {
+		if !run.Mine(round) {
+			continue
+		}
+		id := fmt.Sprintf("conc-named/%d", round)
+		if !run.Want(id) {
+			continue
+		}
+		run.Journal(id, "")
+		q := &memberlist.TransmitLimitedQueue{RetransmitMult: 3, NumNodes: func() int { return 10 }}
+		names := []string{"a", "b", "c"}[:1+round%3]
+		var all sync.Map
+		var uidGen atomic.Int64
+		var wg sync.WaitGroup
+		producers := 2 + round%5
+		for p := 0; p < producers; p++ {
+			wg.Add(1)
+			go func(p int) {
+				defer wg.Done()
+				rng := rand.New(rand.NewSource(run.Seed()*7919 + int64(round*16+p)))
+				for i := 0; i < 40; i++ {
+					uid := int(uidGen.Add(1))
+					b := &tb{uid: uid, kind: kNamed, name: names[rng.Intn(len(names))], msg: mkMsg(1 + rng.Intn(6)), slow: rng.Intn(2) == 0}
+					all.Store(uid, b)
+					q.QueueBroadcast(namedTB{b})
+				}
+			}(p)
+		}
+		wg.Wait()
+		run.Eval(1)
+		run.Cell("concurrent-named", fmt.Sprintf("subjects=%d", len(names)), fmt.Sprintf("producers=%d", producers))
+		total, finished, twice := 0, 0, 0
+		all.Range(func(k, v any) bool {
+			total++
+			switch f := v.(*tb).fin.Load(); {
+			case f == 1:
+				finished++
+			case f > 1:
+				twice++
+			}
+			return true
+		})
+		nq := q.NumQueued()
+		if nq != len(names) {
+			run.Violation(id, "C10/concurrent/one-per-subject", fmt.Sprintf("%d goroutines queued %d broadcasts about %d subjects (completion callbacks that take a while): the queue now holds %d broadcasts, expected one per subject; %d were completed", producers, total, len(names), nq, finished), map[string]any{"round": round})
+			continue
+		}
+		if twice > 0 || finished != total-len(names) {
+			run.Violation(id, "C10/concurrent/finished-count", fmt.Sprintf("%d broadcasts queued about %d subjects, %d remain queued: %d were completed once (expected %d), %d more than once", total, len(names), nq, finished, total-len(names), twice), map[string]any{"round": round})
+			continue
+		}
+		// drain: only never-completed survivors may come out, one subject each
+		seen := map[string]bool{}
+		bad := ""
+		for guard := 0; q.NumQueued() > 0 && guard < 100; guard++ {
+			for _, m := range q.GetBroadcasts(0, 1<<20) {
+				all.Range(func(k, v any) bool {
+					b := v.(*tb)
+					if msgID(b.msg) == msgID(m) {
+						seen[b.name] = true
+						if b.fin.Load() > 1 {
+							bad = fmt.Sprintf("uid %d (%s) completed %d times", b.uid, b.name, b.fin.Load())
+						}
+						return false
+					}
+					return true
+				})
+			}
+		}
+		if bad != "" || len(seen) != len(names) {
+			run.Violation(id, "C10/concurrent/drain", fmt.Sprintf("draining handed out broadcasts about %d subjects, expected %d; %s", len(seen), len(names), bad), map[string]any{"round": round})
+		}
+	}
+	if !run.Replaying() {
+		run.Require("concurrent-named|subjects=1|producers=2")
 	}
 }
